@@ -22,6 +22,16 @@ def scenarios(seed, tier):
     for i in range(n):
         s = gen.gen_portfolio(random.Random(rnd.getrandbits(48)), tmax=12 if tier == 'quick' else 20)
         s['mode'] = 'split' if i % 4 == 3 else 'mono'
+        if i % 10 == 9:
+            # extreme unit conversions: tiny flows behind huge factors (e.g. TWh -> kWh)
+            big = rnd.choice([1e6, 1e8, 5e8, 1e-6])
+            for a in s['assets']:
+                if a['type'] in ('Transport', 'ExtendedTransport') and a['args'].get('max_cap', 0) > 0:
+                    a['args']['efficiency'] = big
+                    a['args']['max_cap'] = a['args']['max_cap'] / big if big > 1 else a['args']['max_cap']
+                    a['args'].pop('max_take', None)
+                    a['args'].pop('min_take', None)
+                    s['extreme'] = True
         yield 'gen%d' % i, s
 
 
@@ -49,6 +59,32 @@ def run_case(scn, drv):
         r['nontrivial'] = nt > 0
         feats.append('solved')
         r['observed'] = {'node_steps_with_two_or_more_flows': nt, 'value': float(rec['res'].value)}
+    # second set-up on the SAME portfolio and asset objects after changing factor-carrying parameters
+    # (transport efficiency, commodity factors): balance must hold with the new factors
+    try:
+        changed = False
+        for a in rec['portf'].assets:
+            if hasattr(a, 'efficiency') and isinstance(a.efficiency, (int, float)):
+                a.efficiency = a.efficiency * 0.5 if a.efficiency > 0.01 else 0.5
+                changed = True
+            if getattr(a, 'factors_commodities', None) is not None:
+                a.factors_commodities = [f * (k + 2) for k, f in enumerate(a.factors_commodities)]
+                changed = True
+        if changed:
+            feats.append('re-setup-changed-factors')
+            with impl.Quiet(), impl.Capture(rec['portf']) as cap:
+                op2 = rec['portf'].setup_optim_problem(rec['prices'], rec['tg'])
+            rec2 = dict(rec)
+            rec2['op'] = op2
+            rec2['captured'] = {k: v[-1] for k, v in cap.caught.items()}
+            r['disagreements'] += pf.corr_assemble(rec2, drv, aspects=('mapping', 'nodalrows', 'nodal'))
+            pf.solve_rec(rec2)
+            r['evaluated'] += 1
+            if not isinstance(rec2['res'], str):
+                v, nt = pf.orc_nodal_balance(rec2, tag='re-setup')
+                r['violations'] += v
+    except Exception as e:
+        feats.append('resetup-error:' + impl.err_class(e))
     if scn.get('mode') == 'split':
         try:
             T = rec['tg'].T
